@@ -90,7 +90,8 @@ def prep_run_physical(
         plan, output_node
     )
     plan = prune_source_literals(plan, inplace=inplace)
-    retry = retry or identity
+    if retry is None:
+        retry = identity
     if progress_observer is None:
         progress_observer = NullProgressObserver()
 
